@@ -594,7 +594,7 @@ PROPS.update({
         labels=r'^e\d+:|^impl',
         # the hygiene theorem speaks about every token of every template: any token disagreement breaks its tie to the code
         kinds=('panic', 'nondet', 'parse', 'tokens', 'tokens-body', 'count'),
-        extra=extras(extra_rustc(l2gen.gen_c13_case, 900, 12000), extra_rustc(l2gen.gen_seq_case, 120, 3000)),
+        extra=extras(extra_rustc(l2gen.gen_c13_case, 900, 12000), extra_rustc(l2gen.gen_seq_case, 120, 3000), extra_rustc(l2gen.gen_macro_case, 120, 3000)),
         level_text='partial: rustc is the judge of name resolution. Proved (Lean, for every item and argument list): every token the expander writes literally is punctuation, a keyword, a primitive type, a literal, a `__`-reserved name or one of three block-local names; all other generated identifiers are segments of absolute `::core::..` paths, member names or attribute contents (provenance-carrying tokens, attr_output_hygienic / derive_output_hygienic); per-field binders keep the reserved prefix; nested helper items never mention the field type. L1 ties every token to the implementation; L2 compiles a well-typed grammar under a hostile-name dictionary in four scopes (incl. a blanket trait offering every method name the generated code calls)',
         level_note='Trusted: rustc as the oracle; the generator of well-typed programs (bin/l2gen.py); the rule set is validated against rustc, not proved complete.',
     ),
@@ -608,7 +608,7 @@ PROPS.update({
         labels=r'^e\d+:|^impl',
         # the hygiene theorem speaks about every token of every template: any token disagreement breaks its tie to the code
         kinds=('panic', 'nondet', 'parse', 'tokens', 'tokens-body', 'count'),
-        extra=extras(extra_rustc(l2gen.gen_c20_case, 900, 15000), extra_rustc(l2gen.gen_seq_case, 120, 3000),
+        extra=extras(extra_rustc(l2gen.gen_c20_case, 900, 15000), extra_rustc(l2gen.gen_seq_case, 120, 3000), extra_rustc(l2gen.gen_macro_case, 120, 3000),
                      # misuse is answered by derive_ex with a message of its own — and by nothing else
                      extra_verdicts(l2gen.gen_c14_error_case, 60, 720)),
         level_text='partial: rustc is the judge. Proved (Lean): the rule set R1-R5 the emitted templates obey (reserved generic names; helper items free of the field type; Self-expanded generics in the free Eq-assertion function, and expand_self leaves no Self behind; parenthesised && operands; by-value scrutinee for arm-less matches) and that derive_ex answers exactly documented misuse with an error of its own (C05). Validated, not proved: completeness of the rule set - a dedicated grammar of well-typed inputs (every trait list x shapes incl. empty / single-variant enums x generics with bounds, defaults, where-clauses mentioning Self x by/key on first / middle / last and generic fields x both entry points) is compiled metadata-only under #![deny(warnings)]; any diagnostic is a violation',
